@@ -1114,7 +1114,8 @@ class Gen:
 # layout: tokens -> text, recording where every token starts
 def layout(tokens, rng, mode="random", filename="f.c", directives=True):
     """mode: 'single' (one line, single blanks), 'lines' (one token per line), 'random'
-    (random blanks/tabs/newlines, no blank where C allows adjacency, linemarkers between tokens).
+    (random blanks/tabs/newlines, no blank where C allows adjacency, linemarkers between tokens),
+    'glued' (no white space wherever two tokens may touch), 'samecoord' (one token per line, each under `# 1 "same.h"`).
     Returns (text, positions) with positions[i] = (file, line, col) of token i."""
     from lexcorr import may_adjoin
     out = []
@@ -1157,6 +1158,12 @@ def layout(tokens, rng, mode="random", filename="f.c", directives=True):
                 emit(" ")
             elif mode == "lines":
                 emit("\n")
+            elif mode == "glued":
+                # no white space wherever C allows two tokens to touch
+                if not may_adjoin(prev, t):
+                    emit(" ")
+            elif mode == "samecoord":
+                emit("\n")
             else:
                 if may_adjoin(prev, t) and rng.random() < 0.35:
                     pass
@@ -1187,6 +1194,10 @@ def layout(tokens, rng, mode="random", filename="f.c", directives=True):
                 if rng.random() < 0.2:
                     emit("\n")
             emit(rng.choice(["", "  ", "\t"]))
+        if mode == "samecoord":
+            # every token gets the same file, line and column: a file included twice, or generated code under one #line
+            emit('# 1 "same.h"\n')
+            cur_file, line = "same.h", 1
         pos.append((cur_file, line, col))
         emit(sp)
         prev = t
